@@ -44,6 +44,9 @@ MSmall == { <<>>,
             <<P("x", "a")>>,                               \* absent choice
             <<P("a", "b"), P("x", "b")>> }
 
+\* maps that rename the empty name or rename to it ('' is also the default value of a Choice column)
+MEmpty == { <<P("", "a")>>, <<P("a", "b"), P("", "d")>>, <<P("a", "")>>, <<P("a", ""), P("", "a")>> }
+
 \* --- cells -------------------------------------------------------------------------------------
 \* a, b, c, d, '', None, 5, ['a'] (a list in a Choice column)
 CU == {CS("a"), CS("b"), CS("c"), CS("d"), CS(""), CZ, CN, CL(<<A("a")>>)}
@@ -58,6 +61,8 @@ LU3 == {CL(<<A("a")>>), CL(<<A("a"), A("b")>>), CZ}
 Cols(S, lo, hi) == UNION {[1..k -> S] : k \in lo..hi}
 FixedC == << CS("a"), CS("b"), CN >>
 FixedL == << CL(<<A("a"), A("b")>>), CL(<<A("c")>>), CS("a") >>
+EmptyC == { <<>>, << CS(""), CS("a"), CZ >> }
+EmptyL == { <<>>, << CL(<<A(""), A("a")>>), CL(<<>>), CZ, CS("") >> }
 
 \* --- filters -----------------------------------------------------------------------------------
 Ent(key, vals) == [key |-> key, isl |-> TRUE, vals |-> vals]
@@ -86,7 +91,9 @@ QuickFams == <<
   Fam("ChoiceList", Cols(LU3, 2, 3), MSmall, FC0),
   Fam("Choice",     {FixedC},        MAll,   FC1),      \* every filter form x every map
   Fam("ChoiceList", {FixedL},        MSmall, FC2),      \* two filters of the column
-  Fam("Choice",     {FixedC},        MSmall, FRange) >>
+  Fam("Choice",     {FixedC},        MSmall, FRange),
+  Fam("Choice",     EmptyC,          MEmpty, FX),       \* the empty name
+  Fam("ChoiceList", EmptyL,          MEmpty, FX) >>
 ThoroughFams == <<
   Fam("Choice",     Cols(CU, 0, 2),  MAll,   FX),
   Fam("ChoiceList", Cols(LU, 0, 2),  MAll,   FX),
@@ -94,7 +101,9 @@ ThoroughFams == <<
   Fam("ChoiceList", Cols(LU4, 3, 3), MAll,   FC0),
   Fam("Choice",     {FixedC},        MAll,   FC0 \cup FC1 \cup FC2),
   Fam("ChoiceList", {FixedL},        MAll,   FC0 \cup FC1 \cup FC2),
-  Fam("Choice",     {FixedC},        MSmall, FRange) >>
+  Fam("Choice",     {FixedC},        MSmall, FRange),
+  Fam("Choice",     EmptyC,          MEmpty, FX),
+  Fam("ChoiceList", EmptyL,          MEmpty, FX) >>
 
 InputsOf(fm) == {[typ |-> fm.typ, cells |-> c, map |-> m, flt |-> f] :
                    c \in fm.cols, m \in fm.maps, f \in fm.flts}
@@ -122,7 +131,7 @@ Stored(in) ==
 Diff(b1, b2) ==
   (IF b1.c # b2.c THEN {"C39.cells"} ELSE {}) \cup (IF b1.filters # b2.filters THEN {"C39.filters"} ELSE {})
 
-ASSUME \A m \in MAll \cup MSmall : WellFormedMap(m)
+ASSUME \A m \in MAll \cup MSmall \cup MEmpty : WellFormedMap(m)
 
 VARIABLE input
 Init == \E k \in 1..Len(Fams) : input \in InputsOf(Fams[k])
